@@ -80,9 +80,18 @@ def _rank(key):
     return RW.NAMES.index(key) if key in RW.NAMES else -1
 
 
+def _forward(a, p):
+    """does atom a of package p lead strictly 'forward': to a higher-ranked name, or to a lower slot of p's own name
+    (both orders are well-founded, so forward justifications never pass through a package in flight)"""
+    if a.key != p.key:
+        return _rank(a.key) > _rank(p.key)
+    return a.slot is not None and a.slot.isdigit() and p.slot.isdigit() and int(a.slot) < int(p.slot)
+
+
 def resolvable_set(world, pk, forward_only=True):
     """ids of resolvable packages (least fixpoint).  forward_only: a DEPEND/BDEPEND/RDEPEND/IDEPEND clause only counts
-    as satisfiable through an alternative on a higher-ranked name (rank = position in resolverworld.NAMES); PDEPEND
+    as satisfiable through an alternative on a higher-ranked name (rank = position in resolverworld.NAMES) or on a
+    lower slot of the package's own name; PDEPEND
     clauses through any alternative.  That is the part of resolvability that cannot depend on how the resolver
     treats a dependency cycle: whatever happens to an alternative that points back, the forward one remains."""
     verify = bool(world["resolver"].get("verify_vdb", True))
@@ -96,9 +105,11 @@ def resolvable_set(world, pk, forward_only=True):
         for cls in RW.CLASSES:
             for cl in p.clauses(cls):
                 alts = [RW.ratom(a) for a in cl]
+                if all(a.blocks for a in alts):
+                    continue  # a blocker asks for nothing (the judged domain only has blockers that match nothing)
                 alts = [a for a in alts if not a.blocks]
                 if forward_only and cls != "PDEPEND":
-                    alts = [a for a in alts if _rank(a.key) > _rank(p.key)]
+                    alts = [a for a in alts if _forward(a, p)]
                 cls_.append(alts)
         clauses[p.id] = cls_
     changed = True
@@ -151,12 +162,13 @@ def _same_ver(p, q):
 
 
 def gen_policy_world(seed):
-    w = RW.gen_world(seed, "mono-cyclic" if seed % 3 else "mono")
+    profile = ("mono", "mono-cyclic", "mono-cyclic", "mono-cyclic", "mono-slots", "mono-slots", "mono-sparse", "mono-sparse")[seed % 8]
+    w = RW.gen_world(seed, profile)
     rnd = random.Random(seed ^ 0x5A5A5A5A)
     pk = RW.rpkgs(w)
     keys = sorted({p.key for p in pk.values()})
     inst_keys = sorted({p.key for p in pk.values() if p.livefs})
-    nt = min(len(keys), RW._w(rnd, [(1, 2), (2, 4), (3, 3)]) if seed % 3 else RW._w(rnd, [(1, 5), (2, 4), (3, 2)]))
+    nt = min(len(keys), RW._w(rnd, {"mono": [(1, 5), (2, 4), (3, 2)], "mono-sparse": [(1, 1), (2, 3), (3, 5)]}.get(profile, [(1, 2), (2, 4), (3, 3)])))
     first = rnd.choice(inst_keys) if inst_keys and rnd.randrange(4) else rnd.choice(keys)
     rest = [k for k in keys if k != first]
     rnd.shuffle(rest)
@@ -217,6 +229,14 @@ def eval_policy(ctx, world, record=True):
     classes = ["policy:" + kind, "verify_vdb:" + ("yes" if world["resolver"].get("verify_vdb") else "no")]
     if len(targets) > 1:
         classes.append("multi_target")
+    for p in pk.values():
+        for cls in RW.CLASSES:
+            for cl in p.clauses(cls):
+                for a in map(RW.ratom, cl):
+                    if a.blocks:
+                        classes.append("world:inert-blocker")
+                    elif a.key == p.key and a.slot is not None and a.slot != p.slot and cls != "PDEPEND" and len(cl) == 1:
+                        classes.append("world:cross-slot-build-dep")
     # which targets can be judged: nothing an earlier target may pull in has the target's name (otherwise the
     # target can legitimately be 'already satisfied' by a lower version when its turn comes)
     plan_ = []
@@ -338,7 +358,7 @@ def eval_determinism(ctx, world, record=True):
 
 def plan(tier, seed):
     if tier == "quick":
-        return [{"task": "policy", "examples": 300} for _ in range(11)] + [{"task": "determinism", "examples": 60} for _ in range(5)]
+        return [{"task": "policy", "examples": 800} for _ in range(11)] + [{"task": "determinism", "examples": 60} for _ in range(5)]
     return [{"task": "policy", "examples": 8000} for _ in range(20)] + [{"task": "determinism", "examples": 2500} for _ in range(12)]
 
 
@@ -368,8 +388,10 @@ def _is_mono(world):
                 for cl in cls:
                     for a in cl:
                         ra = RW.ratom(a)
-                        if ra.blocks or ra.op not in ("", ">="):
+                        if ra.op not in ("", ">=") and not ra.blocks:
                             return False
+                        if ra.blocks and any(ra.match(q) for q in RW.rpkgs(world).values()):
+                            return False  # only blockers that match nothing are inside the judged domain
     return True
 
 
